@@ -16,6 +16,8 @@ RULE = ("generated topologies: 1..300 atoms quick / to 3000 thorough; shapes cha
         "increasing atom numbers with random gaps; bonds spread over constraints/bonds/pairs, sections split into repeated "
         "occurrences and permuted (bonds before atoms included), unrelated sections, comment/blank/preprocessor lines, "
         "varied spacing, integer spellings (+5, 007, 1_000), trailing comments, CRLF files, missing final newline; "
+        "copy histories every run: load, mutate through the public API (connect, resnames/resids setters, atom and molecule "
+        "names), keep / delete / overwrite the file, copy: the copy must equal the CURRENT object and stay independent; "
         "call histories every run: one scratch path reused for 3-6 successive different topologies (incl. pairs of equal "
         "byte length: two atom names / two bond partners / two comment words swapped), each written and loaded back to back; "
         "size-boundary stream every run (499/500/501/502, ~800, ~1200 atoms: connected; one isolated atom at the end / start / "
@@ -117,6 +119,120 @@ def oracle_copy(mol):
     return bad
 
 
+# ------------------------------------------------------------------ copy of a MUTATED object
+def snapshot(mol):
+    return (mol.name, [(a.name, a.resname, a.resid, a.index, sorted(a.bonds)) for a in mol])
+
+
+def gen_ops(rs, n):
+    """mutations through the public API between load and copy"""
+    ops = []
+    for _ in range(int(rs.randint(1, 5))):
+        k = int(rs.randint(0, 5))
+        if k == 0 and n >= 2:
+            i, j = [int(x) for x in rs.choice(n, size=2, replace=False)]
+            ops.append(["connect", i, j])
+        elif k == 1:
+            ops.append(["resnames", [ic.gen_name(rs, 4, "") for _ in range(n)]])
+        elif k == 2:
+            ops.append(["resids", [int(x) for x in rs.randint(1, 900, size=n)]])
+        elif k == 3:
+            ops.append(["rename", int(rs.randint(0, n)), ic.gen_name(rs, 4, "'*")])
+        else:
+            ops.append(["molname", ic.gen_name(rs, 6, "_")])
+    if n >= 2 and rs.randint(0, 2):       # join what may be two fragments
+        ops.append(["connect", 0, n - 1])
+    return ops
+
+
+def apply_ops(mol, ops):
+    for op in ops:
+        try:
+            if op[0] == "connect":
+                mol[op[1]].connect(mol[op[2]])
+            elif op[0] == "resnames":
+                mol.resnames = list(op[1][:len(mol.resnames)])
+            elif op[0] == "resids":
+                mol.resids = list(op[1][:len(mol.resids)])
+            elif op[0] == "rename":
+                mol[op[1]].name = op[2]
+            elif op[0] == "molname":
+                mol.name = op[1]
+        except (ValueError, IndexError):
+            pass          # a setter refusing its argument is not what is examined here
+
+
+OTHER_TEXT = "[ moleculetype ]\nOTHER 1\n[ atoms ]\n1 X 1 OTH Q1 1\n2 X 1 OTH Q2 2\n[ bonds ]\n1 2\n"
+
+
+def mutated_copy(text, ops, file_action):
+    """load -> mutate through the public API -> (keep | delete | overwrite the file) -> copy.
+    Returns (failed clauses, current snapshot, observation of the copy for K)."""
+    from gaddlemaps.components import MoleculeTop, are_connected
+    import os
+    path = ic.write_text(text)
+    try:
+        mol = MoleculeTop(path)
+    except Exception as ex:   # noqa: BLE001 - a well-formed generated file must load
+        return ["MoleculeTop raised %s: %s" % (type(ex).__name__, str(ex)[:60])], ("", []), ("err", ic.err_class(ex))
+    apply_ops(mol, ops)
+    if file_action == "delete":
+        os.remove(path)
+    elif file_action == "overwrite":
+        ic.write_text(OTHER_TEXT, path=path)
+    cur = snapshot(mol)
+    n = len(mol)
+    bad = []
+    try:
+        cp = mol.copy()
+    except Exception as ex:   # noqa: BLE001
+        return ["copy raised %s" % type(ex).__name__], cur, ("err", ic.err_class(ex))
+    eq = bool(cp == mol)
+    obs = ("ok", (cp.name, snapshot(cp)[1], eq))
+    if not eq or not (mol == cp) or (cp != mol):
+        bad.append("copy is not equal to the (mutated) original")
+    if snapshot(cp) != cur:
+        bad.append("copy carries %s, the original is %s" % (str(snapshot(cp))[:150], str(cur)[:150]))
+    if hasattr(mol, "resnames") and (cp.resnames != mol.resnames or cp.resids != mol.resids):
+        bad.append("resnames/resids of the copy differ")
+    want = ic.components(n, [(k, j) for k, a in enumerate(cur[1]) for j in a[4]]) == 1
+    got_o, got_c = ic.guarded(lambda: bool(are_connected(mol.atoms))), ic.guarded(lambda: bool(are_connected(cp.atoms)))
+    if got_o != ("ok", want) or got_c != ("ok", want):
+        bad.append("are_connected original=%s copy=%s, graph connected=%s" % (got_o, got_c, want))
+    if cp is mol or cp.atoms is mol.atoms or any(a is b or a.bonds is b.bonds for a, b in zip(mol, cp)):
+        bad.append("copy shares objects with the original")
+    for k, a in enumerate(cp):
+        a.bonds.add(n + 3)
+        a.name = a.name + "z"
+    cp.name = cp.name + "_c"
+    if snapshot(mol) != cur:
+        bad.append("mutating the copy changed the original")
+    return bad, cur, obs
+
+
+def check_mutated_copy(ctx, text, ops, file_action, label=""):
+    bad, cur, obs = mutated_copy(text, ops, file_action)
+    if bad:
+        ctx.violation("copy after %s, file %s%s: %s" % ([o[0] for o in ops], file_action, label, "; ".join(bad[:3])),
+                      {"kind": "mutated_copy", "text": text, "ops": ops, "file": file_action}, key="mutated_copy")
+    return bad, cur, obs
+
+
+def copy_case_term(cur, obs):
+    atoms = lambda ats: ic.clist("(%s, %s, %s, %s, %s)" % (ic.cs(n), ic.cs(r), ic.cz(i), ic.cz(k), ic.clist(ic.cz(b) for b in bs))
+                                 for n, r, i, k, bs in ats)
+    return "chk_copy %s %s %s" % (ic.cs(cur[0]), atoms(cur[1]),
+                                 ic.cres(obs, lambda v: "(%s, %s, %s)" % (ic.cs(v[0]), atoms(v[1]), ic.cb(v[2]))))
+
+
+DEMO_FRAG = ("; two fragments that the user joins by hand afterwards\n#include \"forcefield.itp\"\n\n[ moleculetype ]\n"
+             "; name nrexcl\nFRAG   1\n\n[ atoms ]\n; nr type resnr residue atom cgnr charge\n  2   C1   1   AAA   C1   2   0.0\n"
+             "  4   C1   1   AAA   C2   4   0.0\n  7   C1   2   BBB   C3   7   0.0\n  9   C1   2   BBB   C4   9   0.0\n\n"
+             "[ bonds ]\n  2   4   1\n#ifdef FLEXIBLE\n#endif\n\n[ constraints ]\n  7   9   1\n")
+DEMO_COPY = [([["resnames", ["XXX", "YYY"]]], "keep"), ([["connect", 1, 2]], "keep"), ([], "delete"),
+             ([["resids", [5, 9]], ["rename", 0, "CX"], ["molname", "JOINED"]], "overwrite")]
+
+
 def make_case(rs, n, shape, deco=True, selfbond=False):
     t = ic.gen_topology(rs, n, shape, deco=deco, selfbond=selfbond)
     text = ic.render_topology(rs, t, deco=deco, final_newline=bool(rs.randint(0, 5)) if deco else True)
@@ -195,6 +311,10 @@ def corpus(ctx):
             t["secs"]["bonds"] = [b for b in t["secs"]["bonds"] if b[0] != cut]
         text = ic.render_topology(rs, t, deco=False)
         check_generated(ctx, text, ic.expected_topology(t), key="long_chain", label="chain of %d atoms" % n)
+        S["corpus"] += 1
+    # copy of an object CHANGED after loading / whose file is gone (a copy that re-parses the file reflects the file)
+    for ops, action in DEMO_COPY:
+        check_mutated_copy(ctx, DEMO_FRAG, ops, action, label=" (corpus)")
         S["corpus"] += 1
     # call-history witness (a loader that memoises per path and revalidates by a whole-second time stamp returns the
     # PREVIOUS molecule): ten successive topologies through one scratch file name
@@ -295,6 +415,17 @@ def correspondence(ctx):
         add_file(text, path, "malformed:" + tag)
     for p in ic.shipped_topologies(include_large=not ctx.quick):
         add_file(None, p, "shipped")
+    # copy of mutated objects against the heap model (built from the CURRENT value of the object)
+    for _ in range(ctx.n(40, 400)):
+        n = int(rs.randint(1, 13))
+        t, text = make_case(rs, n, ic.pick(rs, ic.SHAPES), deco=bool(rs.randint(0, 2)))
+        ops = gen_ops(rs, n)
+        action = ic.pick(rs, ["keep", "keep", "delete", "overwrite"])
+        _, cur, obs = check_mutated_copy(ctx, text, ops, action)
+        cases.append(copy_case_term(cur, obs))
+        meta.append({"kind": "mutated_copy", "text": text, "ops": ops, "file": action})
+        hist["mutated_copy"] = hist.get("mutated_copy", 0) + 1
+        ctx.count(("mcopy", text, json.dumps(ops), action))
     # same-path call histories: the observation of every step goes to the model together with the text of that step
     check_history(ctx, rs, ctx.n(6, 40), on_step=lambda path, text, truth, kind: add_file(text, path, "history:" + kind, truth))
     # size boundaries (499..502, ~800, ~1200 atoms; isolated atoms / second component at the end, start, middle):
@@ -309,11 +440,15 @@ def correspondence(ctx):
         if k in (7, 13):          # two of them (500 / 501 atoms) through the whole text model as well
             add_file(text, path, "boundary:" + label.rsplit("_", 1)[0], ic.expected_topology(t))
         elif n <= 560 or big_in_k or not ctx.quick:   # the model's walk on unary nat is cubic: few big ones in quick
-            mol = MoleculeTop(path)
-            adj = [list(a.bonds) for a in mol]
-            oc = ic.guarded(lambda: bool(are_connected(mol.atoms)))
-            cases.append("chk_conn %s %s" % (ic.clist(ic.clist(ic.cz(x) for x in b) for b in adj), ic.cres(oc, ic.cb)))
-            meta.append({"kind": "adjacency", "gen": "boundary:" + label, "adj": adj})
+            try:
+                mol = MoleculeTop(path)
+            except Exception:   # noqa: BLE001 - reported by the oracle below
+                mol = None
+            if mol is not None:
+                adj = [list(a.bonds) for a in mol]
+                oc = ic.guarded(lambda: bool(are_connected(mol.atoms)))
+                cases.append("chk_conn %s %s" % (ic.clist(ic.clist(ic.cz(x) for x in b) for b in adj), ic.cres(oc, ic.cb)))
+                meta.append({"kind": "adjacency", "gen": "boundary:" + label, "adj": adj})
         hist["boundary"] = hist.get("boundary", 0) + 1
         ctx.count(("boundary", label, len(bonds)))
         bad = oracle_topology(path, ic.expected_topology(t))
@@ -358,6 +493,8 @@ def correspondence(ctx):
             tr = d["truth"]
             truth = (tr[0], [tuple(a) for a in tr[1]], [tuple(b) for b in tr[2]])
             check_generated(ctx, d["text"], truth, label="K-disagreement")
+        elif d["kind"] == "mutated_copy":
+            check_mutated_copy(ctx, d["text"], d["ops"], d["file"], label=" (K-disagreement)")
         elif d["kind"] == "adjacency":
             bad = oracle_adjacency(d["adj"])
             if bad:
@@ -394,6 +531,14 @@ def oracle(ctx, scale):
         hist[shape] = hist.get(shape, 0) + 1
         ctx.count(("S", text))
         fails += bool(bad)
+    # copy after mutation through the public API / after the file is gone
+    nm = ctx.n(60, 600) * scale
+    for _ in range(nm):
+        n = int(rs.randint(1, 40))
+        t, text = make_case(rs, n, ic.pick(rs, ic.SHAPES), deco=bool(rs.randint(0, 2)))
+        bad, _, _ = check_mutated_copy(ctx, text, gen_ops(rs, n), ic.pick(rs, ["keep", "keep", "delete", "overwrite"]))
+        fails += bool(bad)
+    S["mutated_copies_x%d" % scale] = nm
     # same-path call histories
     nh = ctx.n(25, 200) * scale
     fails += check_history(ctx, rs, nh)
@@ -414,8 +559,10 @@ def oracle(ctx, scale):
     # shipped molecules: connected by construction of the package data; copy semantics
     from gaddlemaps.components import MoleculeTop
     for p in ic.shipped_topologies(include_large=not ctx.quick):
-        mol = MoleculeTop(p)
-        bad = oracle_copy(mol)
+        try:
+            bad = oracle_copy(MoleculeTop(p))
+        except Exception as ex:   # noqa: BLE001
+            bad = ["MoleculeTop raised %s" % type(ex).__name__]
         if bad:
             fails += 1
             ctx.violation("copy of shipped topology: " + "; ".join(bad), {"kind": "shipped_copy", "path": p}, key="copy")
@@ -430,6 +577,8 @@ def replay(ctx, obj):
         tr = r["truth"]
         path = ic.write_text(r["text"], crlf=bool(r.get("crlf")))
         bad = oracle_topology(path, (tr[0], [tuple(a) for a in tr[1]], [tuple(b) for b in tr[2]]))
+    elif r.get("kind") == "mutated_copy":
+        bad = mutated_copy(r["text"], r["ops"], r["file"])[0]
     elif r.get("kind") == "history":
         tr = r["truth"]
         bad = replay_history(r["texts"], (tr[0], [tuple(a) for a in tr[1]], [tuple(b) for b in tr[2]]))
